@@ -677,3 +677,29 @@ func EnvInt(name string, def int) int {
 	}
 	return v
 }
+
+// IterPair runs two iterators over the same container at the same time: the first takes one step, then the second is
+// created, then they advance alternately until both are exhausted. Each must yield what a lone iterator yields.
+func IterPair[T any](mk func() (next func() bool, value func() T)) [][]T {
+	out := [][]T{{}, {}}
+	n1, v1 := mk()
+	live1 := n1()
+	if live1 {
+		out[0] = append(out[0], v1())
+	}
+	n2, v2 := mk()
+	live2 := true
+	for steps := 0; (live1 || live2) && steps < 1<<21; steps++ {
+		if live2 {
+			if live2 = n2(); live2 {
+				out[1] = append(out[1], v2())
+			}
+		}
+		if live1 {
+			if live1 = n1(); live1 {
+				out[0] = append(out[0], v1())
+			}
+		}
+	}
+	return out
+}
